@@ -701,3 +701,11 @@ pub fn tokenize(
 ) -> impl Iterator<Item = Result<(Token<'_>, Span), Error>> {
     whitespace_filter(basic_tokenize(input, delimiters))
 }
+
+#[cfg(feature = "verif_hooks")]
+pub(crate) fn verif_basic_tokenize(
+    input: &str,
+    delimiters: Delimiters,
+) -> impl Iterator<Item = Result<(Token<'_>, Span), Error>> {
+    basic_tokenize(input, delimiters)
+}
